@@ -584,17 +584,25 @@ func (ex *Exec) markShared(roots []value) {
 
 // ---------- ghost file table (multibuf spill files) ----------
 
-type fileTable struct {
-	created int
-	exists  map[int]bool
-	opened  map[int]int
+type fileState struct {
+	name   string
+	data   []value // bytes (8-bit terms)
+	pos    int
+	open   bool
+	exists bool
 }
 
-func newFileTable() *fileTable { return &fileTable{exists: map[int]bool{}, opened: map[int]int{}} }
+type fileTable struct {
+	created int
+	files   map[*value]*fileState
+	order   []*value
+}
+
+func newFileTable() *fileTable { return &fileTable{files: map[*value]*fileState{}} }
 func (f *fileTable) existing() int {
 	n := 0
-	for _, e := range f.exists {
-		if e {
+	for _, p := range f.order {
+		if f.files[p].exists {
 			n++
 		}
 	}
@@ -602,12 +610,47 @@ func (f *fileTable) existing() int {
 }
 func (f *fileTable) open() int {
 	n := 0
-	for _, c := range f.opened {
-		if c > 0 {
+	for _, p := range f.order {
+		if f.files[p].open {
 			n++
 		}
 	}
 	return n
+}
+
+func (ex *Exec) fileOf(v value) *fileState {
+	p, ok := v.(*value)
+	if !ok || p == nil {
+		ex.runtimePanic("nil *os.File")
+	}
+	fs := ex.files.files[p]
+	if fs == nil {
+		panic(unsupported{"operation on an *os.File not created by the modelled TempFile"})
+	}
+	return fs
+}
+
+func (ex *Exec) osErr(msg string) value { return ex.newErrorValue(msg) }
+
+func (ex *Exec) eofValue() value {
+	if ip := ex.prog.ImportedPackage("io"); ip != nil {
+		if g, ok := ip.Members["EOF"].(*ssa.Global); ok {
+			return *ex.globalAddr(g)
+		}
+	}
+	return ex.newErrorValue("EOF")
+}
+
+// callMethod invokes a method by name on an interface value.
+func (ex *Exec) callMethod(c *frame, recv iface, name string, args ...value) value {
+	if recv.t == nil {
+		ex.runtimePanic("method call on nil interface")
+	}
+	f := ex.lookupMethod(recv.t, nil, name)
+	if f == nil {
+		panic(unsupported{"no method " + name + " on " + recv.t.String()})
+	}
+	return ex.call(c, f, append([]value{recv.v}, args...), token.NoPos)
 }
 
 // ---------- std models ----------
@@ -821,6 +864,125 @@ func init() {
 	}
 	m["os.Hostname"] = func(ex *Exec, c *frame, fn *ssa.Function, a []value) value {
 		return tuple{ex.input("os.hostname", StrSort), iface{}}
+	}
+	tempFile := func(ex *Exec, c *frame, fn *ssa.Function, a []value) value {
+		ft := ex.files
+		ft.created++
+		cell := new(value)
+		// *os.File points to a struct; its contents are never inspected by interpreted code
+		*cell = ex.zero(fn.Signature.Results().At(0).Type().(*types.Pointer).Elem())
+		ft.files[cell] = &fileState{name: fmt.Sprintf("/tmp/temp-multibuf-%d", ft.created), open: true, exists: true}
+		ft.order = append(ft.order, cell)
+		return tuple{cell, iface{}}
+	}
+	m["os.CreateTemp"] = tempFile
+	m["io/ioutil.TempFile"] = tempFile
+	m["os.Remove"] = func(ex *Exec, c *frame, fn *ssa.Function, a []value) value {
+		name := ex.constStr(a[0], "file name")
+		for _, p := range ex.files.order {
+			fs := ex.files.files[p]
+			if fs.name == name && fs.exists {
+				fs.exists = false
+				return iface{}
+			}
+		}
+		return ex.osErr("remove " + name + ": no such file or directory")
+	}
+	m["(*os.File).Name"] = func(ex *Exec, c *frame, fn *ssa.Function, a []value) value {
+		return ex.tc.StrConst(ex.fileOf(a[0]).name)
+	}
+	m["(*os.File).Close"] = func(ex *Exec, c *frame, fn *ssa.Function, a []value) value {
+		fs := ex.fileOf(a[0])
+		if !fs.open {
+			return ex.osErr("close " + fs.name + ": file already closed")
+		}
+		fs.open = false
+		return iface{}
+	}
+	m["(*os.File).Write"] = func(ex *Exec, c *frame, fn *ssa.Function, a []value) value {
+		fs := ex.fileOf(a[0])
+		if !fs.open {
+			return tuple{ex.tc.Int64(0), ex.osErr("write " + fs.name + ": file already closed")}
+		}
+		b := a[1].([]value)
+		for _, x := range b {
+			if fs.pos < len(fs.data) {
+				fs.data[fs.pos] = x
+			} else {
+				fs.data = append(fs.data, x)
+			}
+			fs.pos++
+		}
+		return tuple{ex.tc.Int64(int64(len(b))), iface{}}
+	}
+	m["(*os.File).Read"] = func(ex *Exec, c *frame, fn *ssa.Function, a []value) value {
+		fs := ex.fileOf(a[0])
+		if !fs.open {
+			return tuple{ex.tc.Int64(0), ex.osErr("read " + fs.name + ": file already closed")}
+		}
+		b := a[1].([]value)
+		if len(b) == 0 {
+			return tuple{ex.tc.Int64(0), iface{}}
+		}
+		if fs.pos >= len(fs.data) {
+			return tuple{ex.tc.Int64(0), ex.eofValue()}
+		}
+		n := 0
+		for n < len(b) && fs.pos < len(fs.data) {
+			ex.storeCell(&b[n], fs.data[fs.pos])
+			n++
+			fs.pos++
+		}
+		return tuple{ex.tc.Int64(int64(n)), iface{}}
+	}
+	m["(*os.File).Seek"] = func(ex *Exec, c *frame, fn *ssa.Function, a []value) value {
+		fs := ex.fileOf(a[0])
+		if !fs.open {
+			return tuple{ex.tc.Int64(0), ex.osErr("seek " + fs.name + ": file already closed")}
+		}
+		off := ex.concreteInt(a[1], "seek offset")
+		wh := ex.concreteInt(a[2], "seek whence")
+		switch wh {
+		case 0:
+			fs.pos = int(off)
+		case 1:
+			fs.pos += int(off)
+		case 2:
+			fs.pos = len(fs.data) + int(off)
+		}
+		return tuple{ex.tc.Int64(int64(fs.pos)), iface{}}
+	}
+	m["(*os.File).ReadFrom"] = func(ex *Exec, c *frame, fn *ssa.Function, a []value) value {
+		// generic copy loop: read from the source through its Read method
+		src := a[1].(iface)
+		total := int64(0)
+		for iter := 0; iter < 4096; iter++ {
+			buf := make([]value, 512)
+			for i := range buf {
+				buf[i] = ex.tc.BVConst(8, 0)
+			}
+			r := ex.callMethod(c, src, "Read", buf).(tuple)
+			n := ex.concreteInt(r[0], "Read result")
+			if n > 0 {
+				models["(*os.File).Write"](ex, c, fn, []value{a[0], buf[:n]})
+				total += n
+			}
+			if e := r[1].(iface); e.t != nil {
+				if sameVal(e, ex.eofValue()) {
+					return tuple{ex.tc.Int64(total), iface{}}
+				}
+				return tuple{ex.tc.Int64(total), e}
+			}
+		}
+		panic(unsupported{"ReadFrom: source never ends"})
+	}
+	m["context.Background"] = func(ex *Exec, c *frame, fn *ssa.Function, a []value) value {
+		if cp := ex.prog.ImportedPackage("context"); cp != nil {
+			if tn := cp.Type("backgroundCtx"); tn != nil {
+				return iface{t: tn.Type(), v: ex.zero(tn.Type())}
+			}
+		}
+		panic(unsupported{"context.Background"})
 	}
 	// --- math ---
 	m["math.Abs"] = func(ex *Exec, c *frame, fn *ssa.Function, a []value) value { return ex.tc.FPAbs(a[0].(*Term)) }
